@@ -1089,7 +1089,8 @@ def run(ctx):
             interp_grid(ctx, MT)
             twist_exp_grid(ctx, MT)
     with ctx.timed('oracle:history'):
-        history_grid(ctx)
+        for _ in range(ctx.n(1, 3)):
+            history_grid(ctx)
     ctx.sample({'kind': 'operator cell', 'class': 'SE3', 'op': '*', 'm': 1, 'n': 3, 'expect': 'result[k] == SE3(left[0]) * SE3(right[k])'})
     ctx.sample({'kind': 'helper correspondence', 'call': 'Quaternion(3 values).binop(Quaternion(2 values), tag-pair)', 'model': MT[('binop', True, 3, 2)]})
     ctx.sample({'kind': 'helper correspondence', 'call': 'SE3(1 value)._op2(SE3(4 values), tag-pair)', 'model': MT[('op2', 1, 4)]})
